@@ -284,18 +284,26 @@ static int ex_search(char **pat)
 	return row >= 0 && row < lbuf_len(xb) ? row : -1;
 }
 
-#define NUMMAX		(1 << 29)	/* numbers in addresses saturate here */
+#define NUMMAX		(1 << 29)	/* line numbers saturate here */
+#define TERMMAX		(1ll << 40)	/* so do the numbers of an address, before they are added */
+
+/* strtoll() that saturates at +-max */
+static long long ex_num(char *s, long long max)
+{
+	long long n = strtoll(s, NULL, 10);
+	return n < -max ? -max : (n > max ? max : n);
+}
 
 /* atoi() that saturates instead of wrapping around */
 static int ex_atoi(char *s)
 {
-	long n = strtol(s, NULL, 10);
-	return n < -NUMMAX ? -NUMMAX : (n > NUMMAX ? NUMMAX : n);
+	return ex_num(s, NUMMAX);
 }
 
 static int ex_lineno(char **num)
 {
-	int n = xrow;
+	long long n = xrow;	/* wide enough for the sum of all offsets */
+	int mark;
 	switch ((unsigned char) **num) {
 	case '.':
 		++*num;
@@ -305,8 +313,9 @@ static int ex_lineno(char **num)
 		++*num;
 		break;
 	case '\'':
-		if (lbuf_jump(xb, (unsigned char) *++(*num), &n, NULL))
+		if (lbuf_jump(xb, (unsigned char) *++(*num), &mark, NULL))
 			return -2;
+		n = mark;
 		++*num;
 		break;
 	case '/':
@@ -317,18 +326,17 @@ static int ex_lineno(char **num)
 		break;
 	default:
 		if (isdigit((unsigned char) **num)) {
-			n = ex_atoi(*num) - 1;
+			n = ex_num(*num, TERMMAX) - 1;
 			while (isdigit((unsigned char) **num))
 				++*num;
 		}
 	}
 	while (**num == '-' || **num == '+') {
-		n += ex_atoi((*num)++);
-		n = MAX(-NUMMAX, MIN(n, NUMMAX));
+		n += ex_num((*num)++, TERMMAX);
 		while (isdigit((unsigned char) **num))
 			(*num)++;
 	}
-	return n;
+	return n < -NUMMAX ? -NUMMAX : (n > NUMMAX ? NUMMAX : n);
 }
 
 /* parse ex command addresses */
